@@ -18,6 +18,7 @@ import (
 	minttypes "github.com/chain4energy/c4e-chain/x/cfeminter/types"
 	vesttypes "github.com/chain4energy/c4e-chain/x/cfevesting/types"
 	sdk "github.com/cosmos/cosmos-sdk/types"
+	"github.com/cosmos/cosmos-sdk/types/address"
 	authtypes "github.com/cosmos/cosmos-sdk/x/auth/types"
 	vestingtypes "github.com/cosmos/cosmos-sdk/x/auth/vesting/types"
 	banktypes "github.com/cosmos/cosmos-sdk/x/bank/types"
@@ -42,6 +43,9 @@ type vestEnv struct {
 	// the governance module account acting as a pool owner (its messages are executed the way
 	// an accepted proposal executes them); only used when govOwner is set
 	govKey             chain.Key
+	// a key-less owner with a 32 byte address (the shape of group policy and interchain
+	// accounts); its messages take the same route as those of the governance account
+	longKey chain.Key
 	govOwner           bool
 	niceFees           bool // fees are multiples of 20 (see genOp0)
 	signBytesChecked   map[string]bool
@@ -152,7 +156,7 @@ func newVestEnvOpts(r *rand.Rand, opt vestOpts) (*vestEnv, error) {
 	accs = append(accs, chain.GenAccount{Account: vestingtypes.NewDelayedVestingAccount(authtypes.NewBaseAccount(e.delayed.Addr, nil, 0, 0), dc, gen.Epoch.Add(30*24*time.Hour).Unix()), Coins: dc.Add(sdk.NewCoin(vDenom, sdk.NewInt(1000)))})
 	// genesis continuous vesting accounts: two traced as genesis, one untraced
 	vg := &vesttypes.GenesisState{Params: vesttypes.Params{Denom: vDenom}, VestingTypes: gts, VestingAccountTraces: []vesttypes.VestingAccountTrace{}}
-	for i := 0; i < 3; i++ {
+	for i := 0; i < 4; i++ {
 		k := e.key(fmt.Sprintf("genesis-cva%d", i))
 		ov := sdk.NewCoins(sdk.NewCoin(vDenom, sdk.NewIntFromBigInt(new(big.Int).Add(gen.BigAmount(r, 22), big.NewInt(1000)))))
 		if i == 2 && r.Intn(2) == 0 {
@@ -168,6 +172,11 @@ func newVestEnvOpts(r *rand.Rand, opt vestOpts) (*vestEnv, error) {
 		}
 		start := gen.Epoch.Add(time.Duration(r.Intn(3)-1) * time.Hour)
 		end := start.Add(time.Duration(1+r.Intn(72)) * time.Hour)
+		if i == 3 {
+			// a cliff account (start = end, everything unlocks at once), the shape a pool send
+			// without restart leaves behind and an exported genesis therefore contains
+			start = end
+		}
 		bva := vestingtypes.NewBaseVestingAccount(authtypes.NewBaseAccount(k.Addr, nil, 0, 0), ov, end.Unix())
 		accs = append(accs, chain.GenAccount{Account: vestingtypes.NewContinuousVestingAccountRaw(bva, start.Unix()), Coins: ov.Add(sdk.NewCoin(vDenom, sdk.NewInt(1_000_000)))})
 		e.cvaKeys = append(e.cvaKeys, k)
@@ -193,6 +202,7 @@ func newVestEnvOpts(r *rand.Rand, opt vestOpts) (*vestEnv, error) {
 	vg.AccountVestingPools = append(vg.AccountVestingPools, &vesttypes.AccountVestingPools{Owner: e.owners[1].Bech(), VestingPools: []*vesttypes.VestingPool{mkPool("np0", false)}})
 	accs = append(accs, opt.Extra...)
 	e.govKey = chain.Key{Addr: authtypes.NewModuleAddress(govtypes.ModuleName)}
+	e.longKey = chain.Key{Addr: sdk.AccAddress(address.Module("group", []byte{byte(r.Intn(256)), 1}))}
 	n, err := chain.NewNode(chain.GenesisSpec{Time: gen.Epoch, Accounts: accs, Vesting: vg, Minter: opt.Minter, Distributor: opt.Distributor})
 	if err != nil {
 		return nil, err
@@ -357,6 +367,9 @@ func (e *vestEnv) genOp0(r *rand.Rand, now time.Time) vOp {
 	owner := e.owners[r.Intn(len(e.owners))]
 	if e.govOwner && r.Intn(12) == 0 {
 		owner = e.govKey
+		if r.Intn(2) == 0 {
+			owner = e.longKey
+		}
 	}
 	var fee sdk.Coins
 	if r.Intn(3) == 0 {
@@ -456,6 +469,10 @@ func (e *vestEnv) genOp0(r *rand.Rand, now time.Time) vOp {
 			if e.traced[cand.Bech()] || r.Intn(3) == 0 {
 				break
 			}
+		}
+		if r.Intn(12) == 0 {
+			// a sender that holds locked coins but is not a continuous vesting account
+			from = e.delayed
 		}
 		signer := from
 		if r.Intn(15) == 0 {
